@@ -102,7 +102,12 @@ func c11Spec(cs c11Case) (*core.Spec, error) {
 		spec.ActionErrorBranches = true
 		errBranch = []*core.Branch{{Pattern: map[string]interface{}{"actionError": "?e"}, Target: "errh"}}
 	}
-	if cs.Where == "action" {
+	if cs.Where == "action+errguard" {
+		// the action loops, and so does the guard on the branch that handles the action's failure
+		spec.ActionErrorBranches = true
+		spec.Nodes["act"] = &core.Node{ActionSource: loop, Branches: &core.Branches{Branches: []*core.Branch{
+			{Pattern: map[string]interface{}{"actionError": "?e"}, GuardSource: loop, Target: "errh"}, {Target: "done"}}}}
+	} else if cs.Where == "action" {
 		spec.Nodes["act"] = &core.Node{ActionSource: loop, Branches: &core.Branches{Branches: append(errBranch, &core.Branch{Target: "done"})}}
 	} else {
 		spec.Nodes["act"] = &core.Node{ActionSource: ok, Branches: &core.Branches{Branches: append(errBranch, &core.Branch{GuardSource: loop, Target: "done"})}}
@@ -233,6 +238,11 @@ func c11Run(cs c11Case) (out [][2]string) {
 			alsoOK := ""
 			if cs.Where == "guard" && cs.Routing != "none" {
 				alsoOK = "errh"
+			}
+			if cs.Where == "action+errguard" {
+				// the action's timeout is routed to the error branches, whose guard runs under the same dead
+				// context: it is interrupted as well (error node), unless it is not reached
+				wantNode, alsoOK = "error", "errh"
 			}
 			if r.node != wantNode && (alsoOK == "" || r.node != alsoOK) {
 				out = append(out, [2]string{"timeout-not-routed-like-an-action-error", fmt.Sprintf("execution %d of %d ended at node %q (error %q); expected the %s node", i+1, cs.N, r.node, r.errText, wantNode)})
@@ -452,7 +462,7 @@ func C11(c *vh.Ctx) {
 	}
 	c.Bound("cancel_at_tick_max", K)
 	c.Bound("deadlines_ms", deadlines)
-	c.Rule("script shapes {while(true), counting for, unbounded recursion, array push, string concatenation, property read/write, nested calls in a loop, a loop in the toString of a thrown object, in a getter of the returned object, in the message getter of a thrown Error}, with and without a harness tick in the loop body, as action and as guard x cancellation {context already cancelled, deadline already expired, cancel delivered at tick k for k=1..K (with and without a far deadline in the context's ancestry), real deadlines} x error routing {none, ActionErrorNode, ActionErrorBranches} x n in {1,2,4} concurrent executions with independent contexts; oracle: the walk returns (90 s horizon), the script makes no more than a (very large) number of ticks after its context is done, the result is the timeout error routed like any action error, and every goroutine started during the call is gone afterwards (10 s grace). Bystander family: while one execution keeps running under a context that is never cancelled, a second execution on the same interpreter (source text compiled by Exec itself, or one shared compiled program) or on the same compiled spec, whose context is already cancelled / already expired / cancelled at its second tick / expires after 5 ms, must stop while the first is still running (the first gives up after 10^7 ticks, which is then a violation). 'Promptly' in milliseconds is not decided.")
+	c.Rule("script shapes {while(true), counting for, unbounded recursion, array push, string concatenation, property read/write, nested calls in a loop, a loop in the toString of a thrown object, in a getter of the returned object, in the message getter of a thrown Error}, with and without a harness tick in the loop body, as action, as guard, and as action plus the guard of the branch that handles the action's failure x cancellation {context already cancelled, deadline already expired, cancel delivered at tick k for k=1..K (with and without a far deadline in the context's ancestry), real deadlines} x error routing {none, ActionErrorNode, ActionErrorBranches} x n in {1,2,4} concurrent executions with independent contexts; oracle: the walk returns (90 s horizon), the script makes no more than a (very large) number of ticks after its context is done, the result is the timeout error routed like any action error, and every goroutine started during the call is gone afterwards (10 s grace). Bystander family: while one execution keeps running under a context that is never cancelled, a second execution on the same interpreter (source text compiled by Exec itself, or one shared compiled program) or on the same compiled spec, whose context is already cancelled / already expired / cancelled at its second tick / expires after 5 ms, must stop while the first is still running (the first gives up after 10^7 ticks, which is then a violation). 'Promptly' in milliseconds is not decided.")
 	var idx uint64
 	for _, kind := range []string{"exec-source", "exec-compiled", "walk-shared-spec"} {
 		for _, victim := range []string{"cancelled", "expired", "tick", "deadline"} {
@@ -464,7 +474,7 @@ func C11(c *vh.Ctx) {
 	}
 	for _, shape := range c11ShapeOrder {
 		for _, ticks := range []bool{true, false} {
-			for _, where := range []string{"action", "guard"} {
+			for _, where := range []string{"action", "guard", "action+errguard"} {
 				var modes []c11Case
 				modes = append(modes, c11Case{Mode: "cancelled"}, c11Case{Mode: "expired"}, c11Case{Mode: "cancelled", Parent: "deadline-1h"})
 				if ticks {
